@@ -304,6 +304,8 @@ type plan struct {
 	order [3]string
 	fail  bool
 	park  bool
+	// cancelEarly: Run's context ends while the initial request is still with the issuer
+	cancelEarly bool
 }
 
 func perms() [][3]string {
@@ -318,6 +320,7 @@ func plans() []plan {
 				for _, park := range []bool{false, true} {
 					ps = append(ps, plan{mode: "order", order: o, fail: fail, park: park})
 				}
+				ps = append(ps, plan{mode: "order", order: o, fail: fail, cancelEarly: true})
 			}
 		}
 	}
@@ -332,7 +335,7 @@ func TestCheck(t *testing.T) {
 	defer rec.Close()
 	initCA()
 	rec.Note("rule", "a case is one scenario against the real SPIFFE object in a synctest bubble with a scripted issuer signing real SVIDs: (order) each of the six first-call orders of Run / Ready / GetX509SVID from separate goroutines x initial fetch succeeding or failing x consumer additionally parked inside GetX509SVID while it holds the read lock; (renewal) a seeded script of 3-8 issuer outcomes (validity windows from 2 s to 30 days, already past half-life, expired, not yet valid; failures: an issuer error, an empty answer, or a signed chain without a usable SPIFFE ID) with the virtual clock advanced in seeded steps of seconds to hours, optionally writing the identity to a directory and rotating the trust anchors. Non-trivial = the issuer received at least one request; distinct = distinct scenario description.")
-	rec.Note("require", []string{"order.get_first", "order.ready_first", "order.run_first", "order.initial_fetch_failed", "order.second_run_refused", "order.consumer_parked_with_rlock", "renewal.requests", "renewal.on_time", "renewal.retry_after_failure", "renewal.served_latest_checked", "renewal.fresh_keys_checked", "renewal.unusable_answer_scripted", "renewal.get_during_inflight_renewal", "renewal.consumer_get_at_publication", "files.sets_checked", "files.undisturbed_after_failed_fetch"})
+	rec.Note("require", []string{"order.get_first", "order.ready_first", "order.run_first", "order.initial_fetch_failed", "order.second_run_refused", "order.run_context_ended_during_initial_fetch", "order.consumer_parked_with_rlock", "renewal.requests", "renewal.on_time", "renewal.retry_after_failure", "renewal.served_latest_checked", "renewal.fresh_keys_checked", "renewal.unusable_answer_scripted", "renewal.get_during_inflight_renewal", "renewal.consumer_get_at_publication", "files.sets_checked", "files.undisturbed_after_failed_fetch"})
 	ps := plans()
 	rec.Planned(len(ps))
 	for idx, pl := range ps {
@@ -404,7 +407,7 @@ func orderScenario(w *world, pl plan, bubble bool) (candidate string) {
 		case "run":
 			go func() { runDone <- s.Run(ctx) }()
 		case "ready":
-			go func() { readyDone <- s.Ready(ctx) }()
+			go func() { readyDone <- s.Ready(context.Background()) }()
 		case "get":
 			go func() { v, err := src.GetX509SVID(); getDone <- res{v, err} }()
 		}
@@ -415,6 +418,12 @@ func orderScenario(w *world, pl plan, bubble bool) (candidate string) {
 	get2 := make(chan res, 1)
 	go func() { v, err := src.GetX509SVID(); get2 <- res{v, err} }()
 	settle()
+	if pl.cancelEarly {
+		w.step("Run's context ends while the initial request is with the issuer")
+		rec.Count("order.run_context_ended_during_initial_fetch", 1)
+		cancel()
+		settle()
+	}
 	w.step("open issuer gate")
 	close(is.gate)
 	q := settle()
@@ -512,7 +521,7 @@ func orderScenario(w *world, pl plan, bubble bool) (candidate string) {
 }
 
 func runOrder(t *testing.T, idx int, pl plan) {
-	w := &world{idx: idx, mode: "order", desc: fmt.Sprintf("order=%v fail=%v park=%v", pl.order, pl.fail, pl.park)}
+	w := &world{idx: idx, mode: "order", desc: fmt.Sprintf("order=%v fail=%v park=%v cancelEarly=%v", pl.order, pl.fail, pl.park, pl.cancelEarly)}
 	rec.Begin(idx, w.mode+" "+w.desc)
 	var cand string
 	res := mon.Bubble(t, func() {
